@@ -310,11 +310,17 @@ async def e2e(net, hyg, plan):
         await c.change_directory("/" if rel else rng.choice(["/", "/" + D]))
         LP = D if rel else "/" + D          # how the directory is spelled in list()/stat()
 
+        unjudged = set()    # entries whose time stamp lies in the ambiguous window of the current 'now': present, not judged
+
         def judge(kind, listed, mon_key, only=None):
             want_names = sorted(only) if only is not None else sorted(entries)
+            listed = [(p, info) for p, info in listed if str(p.name) not in unjudged]
             got_names = sorted(str(p.name) for p, info in listed)
             if got_names != want_names:
-                viol.append({"key": f"{kind}-entry-set-differs", "msg": f"{kind} of {LP!r}: listed {got_names[:8]}, back end has {want_names[:8]}"})
+                only_listed = [x for x in got_names if x not in want_names][:6]
+                missing = [x for x in want_names if x not in got_names][:6]
+                viol.append({"key": f"{kind}-entry-set-differs", "msg": f"{kind} of {LP!r}: {len(got_names)} listed, back end has "
+                                                                        f"{len(want_names)}; listed only: {only_listed}, missing: {missing}"})
                 return
             for p, info in listed:
                 typ, size, mtime = entries[p.name]
@@ -368,6 +374,7 @@ async def e2e(net, hyg, plan):
             for name_, (typ_, size_, mtime_) in list(entries.items()):
                 if abs(now - mtime_ - H) < 86400 + 5:
                     entries.pop(name_)      # inside the ambiguous window of the second 'now': not judged
+                    unjudged.add(name_)
             mon["relisted_at_another_time"] = mon.get("relisted_at_another_time", 0) + 1
             await do_list()
         mon["mlsx_entries"] += 0
